@@ -6,7 +6,7 @@ use crate::engine::{hash_of, pt, Ctx, Fail};
 use proptest::prelude::*;
 use serde_json::{json, Value as J};
 
-fn check(p: &str, t: &str) -> Option<Fail> {
+pub fn check(p: &str, t: &str) -> Option<Fail> {
     let want = glob_match(p, t);
     let got = match crate::engine::catch(|| humphrey::krauss::wildcard_match(p, t)) {
         Ok(g) => g,
@@ -33,7 +33,7 @@ fn check(p: &str, t: &str) -> Option<Fail> {
 
 /// non-trivial: the pattern has a `*` followed by a literal char that occurs at least twice in the
 /// text (so a greedy/first-occurrence matcher has to reconsider where the star ends).
-fn nontrivial(p: &str, t: &str) -> bool {
+pub fn nontrivial(p: &str, t: &str) -> bool {
     let pc: Vec<char> = p.chars().collect();
     for i in 0..pc.len().saturating_sub(1) {
         if pc[i] == '*' && pc[i + 1] != '*' {
